@@ -312,6 +312,11 @@ inductive Choice
   /-- the time wheel fires the slot and `openMessage` meets a transient fault at call `w`: the error is logged
   ("read message"), the slot is dropped, nothing is touched -/
   | openFault (w : FaultAt)
+  /-- `queueDelivery.Commit` on a queue whose time wheel was already stopped (`Queue.Close` raced with the open
+  transaction: Start, AddRcpt, Body, Close, Commit): `TimeWheel.Add` ignores the slot, `Commit` returns nil all the
+  same — the transaction IS acknowledged (acceptance = `Commit` returned nil), nothing is kept in memory, the spool
+  entry written by `Body` stays as it is and the next start-up scan finds it -/
+  | commitStopped
 
 /-- Result of the classification loop of `tryDelivery` for metadata `m` and errors `e`. -/
 def attemptResult (P : Params) (m : SMeta) (e : Errs) : Acc :=
@@ -345,6 +350,26 @@ def deliverErrs (to : List Addr) (sc : Staged) : Errs :=
   else match sc.commit with
     | none => sc.afterBody
     | some c => fun r => if (sc.add r).isSome then sc.add r else some c
+
+/-- The branch `Queue.deliver` takes, as DATA (decided once per attempt; `deliverErrs` is a function of the recipient
+and the compiled driver would decide it again for every recipient — cubic for messages with thousands of them). -/
+inductive DeliverCase
+  | nobodyAccepted | bodyFailedForAll | committed | commitFailed (c : Cls)
+deriving DecidableEq, Repr
+
+def deliverCase (to : List Addr) (sc : Staged) : DeliverCase :=
+  let acc := to.filter (fun r => (sc.add r).isNone)
+  if acc.isEmpty then .nobodyAccepted
+  else if acc.all (fun r => (sc.afterBody r).isSome) then .bodyFailedForAll
+  else match sc.commit with
+    | none => .committed
+    | some c => .commitFailed c
+
+def errsOfCase (sc : Staged) : DeliverCase → Errs
+  | .nobodyAccepted => sc.add
+  | .bodyFailedForAll => sc.afterBody
+  | .committed => sc.afterBody
+  | .commitFailed c => fun r => if (sc.add r).isSome then sc.add r else some c
 
 def nextMeta (m : SMeta) (a : Acc) : SMeta := ⟨a.newR, a.newR.map (fun r => (r, a.tries r)), m.nullFrom⟩
 
@@ -455,6 +480,10 @@ def step? (P : Params) (s : St) : Choice → Option St
   | .openFault w =>
     match s.pc with
     | .sched none => if openReaches P.codec s.disk w then some { s with pc := .fin } else none
+    | _ => none
+  | .commitStopped =>
+    match s.pc with
+    | .stored _ => some { s with pc := .fin, g := { s.g with accepted := true } }
     | _ => none
 
 /-- States reachable from the initial one (fresh id, empty disk) by any choices. -/
